@@ -52,6 +52,13 @@ pub struct SimConfig {
     pub pct_horizon: u32,
     /// Record the kernel-event history (H6)?
     pub record_history: bool,
+    /// Crash injection: probability (permille) per scheduler step that a
+    /// running process other than the main shell is killed with SIGKILL by
+    /// the environment (pid 1), at most `crash_max` times per run.
+    #[serde(default)]
+    pub crash_permille: u32,
+    #[serde(default)]
+    pub crash_max: u32,
 }
 
 impl Default for SimConfig {
@@ -66,6 +73,8 @@ impl Default for SimConfig {
             max_steps: 20_000,
             pct_horizon: 200,
             record_history: true,
+            crash_permille: 0,
+            crash_max: 0,
         }
     }
 }
